@@ -104,6 +104,9 @@ def programs(tier, seed):
          ["and", ["q", "?x", "?y"], ["q", "?y", "?w"], ["not", ["q", "?w", "?x"]]]),
         (P2, ["and", ["forall", ["?z", "-", "t1"], ["or", ["q", "?z", "?x"], ["q", "?z", "?y"]]]],
          ["and", ["forall", ["?z", "-", "t1"], ["when", ["and", ["q", "?x", "?z"], ["q", "?y", "?z"]], ["and", ["not", ["q", "?x", "?z"]]]]]]),
+        # object (in)equalities inside the conditions of conditional and quantified effects
+        (P2, ["and", ["p", "?x"]], ["and", ["when", ["and", ["=", "?x", "?y"], ["p", "?y"]], ["q", "?y", "?x"]],
+                                   ["forall", ["?z", "-", "t1"], ["when", ["not", ["=", "?z", "?x"]], ["not", ["q", "?z", "?y"]]]]]),
         # a quantified effect / precondition whose variable has the name of a parameter: a renaming that maps the other parameter
         # onto that name must not let the quantifier capture it
         (P2, ["and", ["q", "?x", "?y"]], ["and", ["forall", ["?x", "-", "t1"], ["when", ["p", "?y"], ["not", ["p", "?x"]]]]]),
